@@ -9,6 +9,8 @@ from .replays import replay
 @replay("ch_native")
 def _(p):
     mod = importlib.import_module(f"harness.{p['module']}")
+    for k, v in (p.get("globals") or {}).items():
+        mod.__dict__[k] = v
     fn = getattr(mod, p["function"])
     call = p["call"]
     try:
